@@ -2,6 +2,7 @@ import Driver.Common
 import AslModel.Codec
 import AslModel.CodecExt
 import AslModel.Sha1
+import AslModel.Sha1Raw
 /-! Model driver for C15 (codec + SHA-1). -/
 open Driver AslModel
 
@@ -82,7 +83,11 @@ def step (_ : Unit) (ts : List String) : Unit × String :=
     | ["pquery", h] => match unhex h with
       | some s => showDic (AslModel.Query.parseQuery s) | none => "bad-op"
     | ["sha1", h] => match unhex h with
-      | some d => hex (Sha1.Impl.hash d) | none => "bad-op"
+      | some d =>
+        let a := Sha1.Impl.hash d
+        -- (the object model walks offsets into the data list: quadratic, so only up to 100 000 bytes)
+        if d.length > 100000 || a == Sha1.Raw.hash d then hex a else "models-differ " ++ hex a
+      | none => "bad-op"
     | "sha1s" :: h :: cuts => match unhex h with
       | some d =>
         let cs := cuts.filterMap String.toNat?
@@ -90,7 +95,9 @@ def step (_ : Unit) (ts : List String) : Unit × String :=
             let (out, rest, pos) := acc
             let k := c - pos
             (out ++ [rest.take k], rest.drop k, pos + k)) ([], d, 0)
-        hex (Sha1.Impl.hashChunks (chunks ++ [rest]))
+        -- the object model (full buffer, count words) is what is compared with the library; the context model must agree
+        let a := Sha1.Raw.hashChunks (chunks ++ [rest])
+        if a == Sha1.Impl.hashChunks (chunks ++ [rest]) then hex a else "models-differ " ++ hex a
       | none => "bad-op"
     | _ => "bad-op"
   ((), r)
